@@ -419,6 +419,11 @@ class BADS:
                 points X0 are not inside the provided hard bounds lower_bounds and upper_bounds."""
             )
 
+        # A non-finite starting coordinate inside (infinite) bounds means "not
+        # provided": the starting point is drawn randomly later on
+        if np.any(np.isinf(x0)):
+            x0 = np.where(np.isinf(x0), np.nan, x0)
+
         # # Compute "effective" bounds (slightly inside provided hard bounds)
         bounds_range = upper_bounds - lower_bounds
         bounds_range[np.isinf(bounds_range)] = 1e3
